@@ -129,6 +129,17 @@ func TraverseAST(node ast.Node, env *Pass1) ast.Node {
 	case *ast.ExportSymStmt: // GLOBAL ディレクティブ
 		// フィールド名を Symbols に修正
 		for _, factor := range n.Symbols {
+			// 同じ名前が複数回 GLOBAL 宣言されてもシンボルは1つだけ出力する (processGLOBAL と同じ扱い)
+			alreadyExists := false
+			for _, existingSymbol := range env.GlobalSymbolList {
+				if existingSymbol == factor.Value {
+					alreadyExists = true
+					break
+				}
+			}
+			if alreadyExists {
+				continue
+			}
 			env.GlobalSymbolList = append(env.GlobalSymbolList, factor.Value)
 			log.Printf("debug: Added global symbol '%s'", factor.Value)
 		}
